@@ -40,10 +40,27 @@ RULE = ('A: strings of 0-8 tokens over the alphabet {a b space \' " \\ newline t
         'injected predicate argument, @DefineFlag default read by FlagValue, user flag '
         'read by FlagValue; every string is tried at every position on all 8 engines, '
         'the literal form is drawn per position.  B: 1-5 flags named '
-        '[a-z]{1,4} with SQL-safe values that reference each other.  Evaluations are '
+        '[a-z]{1,4} whose default and user values reference each other (DAG, arbitrary, '
+        'ring, undefined name); in one case of three the values are SQL-safe text, in two '
+        'of three they are built from a hostile dictionary (backslash sequences \\ \\\\ '
+        '\\n \\t \\d \\x \\1 \\g<0> \\g<a>, $ { } $$ $1 ${ {a} $a, %s %d % %% %(a)s {0} {} {{ '
+        '}}, quotes, real newline/tab, comment markers, non-ASCII, a Windows path, a '
+        'regular expression) with the defaults written in a drawn literal form and '
+        'parameter look-alikes around the references of the fact T("...${f}..."); one '
+        'hostile case in four reads a flag with T(FlagValue("f")) instead.  Oracle B: '
+        'acyclic definitions => main_predicate_sql equals, character for character, the '
+        'SQL of the same flags with a reference-free marker string in the fact, the '
+        'marker replaced by the structural expansion (user values over defaults); when '
+        'every character of the expansion is verbatim inside that engine\'s literal the '
+        'statement has one literal decoding to it and SQLite returns it; FlagValue of a '
+        'value without live references: token sequence of the control value "abc" with '
+        'the literal decoding to the value, SQLite returns it; cycles/undefined names as '
+        'before.  Evaluations are '
         '(case, engine) pairs.  Non-trivial (A) = the string has a character outside '
-        '[a-z0-9 ]; (B) = at least one reference between flags; distinct by hash of '
-        '(string, position, form, engine) resp. (definitions, user flags, use, engine).')
+        '[a-z0-9 ]; (B) = at least one reference between flags or a hostile character in '
+        'a value; distinct by hash of '
+        '(string, position, form, engine) resp. (definitions, user flags, use, forms, '
+        'flag read, engine).')
 ASSUMPTIONS = [
     'lv/sqlscope.py lexers follow the documented lexical rules of the eight engines '
     '(string literal forms and escapes)',
@@ -54,6 +71,14 @@ ASSUMPTIONS = [
     'substitution rounds are counted through a dict subclass put in place of '
     'LogicaProgram.flag_values (items() calls); nothing in /repo is edited',
     'dialect-library parse memoised per process (filled by the real parser)',
+    '${flag} is textual substitution into the SQL (docs: flags as parameters): a value '
+    'spliced into a literal is not escaped by the compiler, so a value holding that '
+    'engine\'s quote/escape characters is only required to appear verbatim in the SQL '
+    'text, not to decode back',
+    'flag cases whose structural expansion differs from plain left-to-right / '
+    'right-to-left textual replacement (references arising by juxtaposition or nesting) '
+    'and cases where a parameter-like sequence exists only in the escaped source of a '
+    'literal are excluded and counted',
 ]
 
 # ---- findings.  D6 (ClickHouse backslash) and the exponential ${flag} cycles were
@@ -356,19 +381,57 @@ class RoundsExceeded(BaseException):
     pass
 
 
-def flag_program(defs, use, engine):
+def def_literals(defs, forms=None):
+    """Source text of each default value: the drawn literal form when it can express the
+    value, else '...' with Python escapes (which expresses every string)."""
+    out = []
+    for i, (n, v) in enumerate(defs):
+        f = (forms[i] if forms and i < len(forms) else 'dq')
+        if not can_express(f, v):
+            f = 'sq'
+        out.append(literal(f, v))
+    return out
+
+
+def flag_program(defs, use, engine, forms=None, read=None):
+    """read=None: the fact T("<use>") (textual ${flag} expansion inside a literal);
+    read=<flag>: the fact T(FlagValue("<flag>"))."""
+    lits = def_literals(defs, forms)
+    fact = 'T(FlagValue("%s"));\n' % read if read else 'T("%s");\n' % use
     return '@Engine("%s");\n' % engine + ''.join(
-        '@DefineFlag("%s", "%s");\n' % (n, v) for n, v in defs) + 'T("%s");\n' % use
+        '@DefineFlag("%s", %s);\n' % (n, l) for (n, v), l in zip(defs, lits)) + fact
 
 
-def flag_model(defs, user, use):
+def simulate(text, eff, order):
+    """Plain textual substitution to a fixed point, flags visited in `order`; None when
+    no fixed point within len(eff) + 2 rounds.  Used ONLY to recognise inputs whose
+    meaning depends on the order of the textual replacements (references that come into
+    being by juxtaposition, e.g. "$" + "{a}", or nested ones, "${a${b}}"): the expected
+    text always comes from the structural expansion below."""
+    for _ in range(len(eff) + 3):
+        prev = text
+        for n in order:
+            text = text.replace('${%s}' % n, eff[n])
+        if text == prev:
+            return text
+    return None
+
+
+def flag_model(defs, user, use, forms=None):
     """-> dict(kind=..., expected=...) from the documented meaning only."""
     defaults = dict(defs)
     eff = dict(defaults)
     eff.update(user)
     in_text = set(REF.findall(use))
-    for n, v in defs:
+    in_src = set(REF.findall(use))
+    for (n, v), l in zip(defs, def_literals(defs, forms)):
         in_text |= set(REF.findall(v))
+        in_src |= set(REF.findall(l))
+    if in_text != in_src:
+        # a parameter-like sequence exists in the escaped source text of a literal and
+        # not in its value (or vice versa): which of the two the compiler should scan for
+        # undefined parameters is not stated anywhere
+        return {'kind': 'ambiguous_parameter_scan'}
     undefined = sorted(in_text - set(defaults))
     if undefined:
         return {'kind': 'undefined_in_program', 'names': undefined}
@@ -429,7 +492,11 @@ def flag_model(defs, user, use):
                 return expand(eff[n], depth + 1)
             return m.group(0)
         return REF.sub(rep, text)
-    return {'kind': 'acyclic', 'expected': expand(use),
+    exp = expand(use)
+    names = [n for n, v in defs]
+    if simulate(use, eff, names) != exp or simulate(use, eff, names[::-1]) != exp:
+        return {'kind': 'order_dependent_expansion'}
+    return {'kind': 'acyclic', 'expected': exp,
             'depth': len(reach), 'has_refs': bool(start)}
 
 
@@ -451,19 +518,37 @@ def compile_flags(text, user):
         return 'internal', e
 
 
-def check_flags(defs, user, use, engine, allow_exponential=False):
+MARK = 'qzqmarkqzq'
+# characters an engine's string literal takes verbatim (documented lexical rules, the same
+# ones lv/sqlscope.py implements): a value spliced by ${flag} is SQL text written by the
+# user, the compiler does not escape it, so only values free of that engine's quote and
+# escape characters are required to come back unchanged as ONE literal
+NO_BACKSLASH_ESCAPES = ('sqlite', 'psql', 'trino', 'presto')
+
+
+def verbatim_in_literal(engine, text):
+    if engine in NO_BACKSLASH_ESCAPES:
+        return "'" not in text
+    return not any(c in text for c in '\'"\\\n\r\t')
+
+
+def check_flags(defs, user, use, engine, allow_exponential=False, forms=None, read=None):
     """-> (failures [(bucket, detail)], labels)"""
     defs = [tuple(d) for d in defs]
     user = dict(user)
-    m = flag_model(defs, user, use)
-    text = flag_program(defs, use, engine)
+    if read:
+        return check_flagvalue(defs, user, read, engine, forms)
+    m = flag_model(defs, user, use, forms)
+    text = flag_program(defs, use, engine, forms)
     hdr = '--- engine %s, user flags %r\n%s' % (engine, user, text)
     labels = ['flags:' + m['kind']]
+    if m['kind'] in ('ambiguous_parameter_scan', 'order_dependent_expansion'):
+        return [], labels + ['flags:not_run']
     if m['kind'] == 'cycle' and m['exponential']:
         labels.append('flags:cycle_exponential')
         if not allow_exponential:
             return [], labels + ['flags:not_run']
-        return exponential_probe(defs, user, use, engine, hdr), labels
+        return exponential_probe(defs, user, use, engine, hdr, forms), labels
     kind, val = compile_flags(text, user)
     labels.append('flags:%s->%s' % (m['kind'], kind))
     if kind == 'rounds':
@@ -496,14 +581,35 @@ def check_flags(defs, user, use, engine, allow_exponential=False):
                  'acyclic flag definitions rejected: %s\n%s' % (
                      common.first_line(val), hdr))], labels
     main = val.execution.main_predicate_sql
+    exp = m['expected']
+    # (1) textual: the statement is the one compiled for a reference-free marker string
+    # at the same place, with the marker replaced by the full expansion - character for
+    # character, whatever the values contain
+    kind0, val0 = compile_flags(flag_program(defs, MARK, engine, forms), user)
+    if kind0 != 'sql' or val0.execution.main_predicate_sql.count(MARK) != 1:
+        return [('flags:control_rejected', 'the same flags with the fact T("%s") do not '
+                 'compile to one occurrence of the marker: %s %s\n%s' % (
+                     MARK, kind0, val0 if kind0 != 'sql' else
+                     val0.execution.main_predicate_sql, hdr))], labels
+    want = val0.execution.main_predicate_sql.replace(MARK, exp)
+    if main != want:
+        return [('flags:wrong_expansion',
+                 'the SQL is not the plain textual substitution of the flag values '
+                 '(user values override defaults):\n--- got\n%s\n--- expected\n%s\n'
+                 '--- expansion %r\n%s' % (main, want, exp, hdr))], labels
+    # (2) where every character of the expansion is verbatim inside this engine's
+    # literal, the statement has exactly one literal and it decodes to the expansion
+    if not verbatim_in_literal(engine, exp):
+        labels.append('flags:expansion_not_literal_safe')
+        return [], labels
     try:
         strs = sqlscope.strings(sqlscope.lex(main, engine))
     except sqlscope.LexError as e:
         return [('flags:not_one_literal', '%s\n--- SQL\n%s\n%s' % (e, main, hdr))], labels
-    if strs != [m['expected']]:
+    if strs != [exp]:
         return [('flags:wrong_expansion',
                  'literal(s) %r, expected the full expansion [%r] (user values override '
-                 'defaults)\n--- SQL\n%s\n%s' % (strs, m['expected'], main, hdr))], labels
+                 'defaults)\n--- SQL\n%s\n%s' % (strs, exp, main, hdr))], labels
     if engine == 'sqlite':
         try:
             h, rows = drive.execute(val)
@@ -511,11 +617,81 @@ def check_flags(defs, user, use, engine, allow_exponential=False):
             return [], labels
         except Exception as e:
             return [('flags:sqlite_error', '%s: %s\n%s' % (type(e).__name__, e, hdr))], labels
-        if rows != [(m['expected'],)]:
+        if rows != [(exp,)]:
             return [('flags:wrong_expansion', 'SQLite returned %r, expected [(%r,)]\n%s' % (
-                rows, m['expected'], hdr))], labels
+                rows, exp, hdr))], labels
     if m['has_refs']:
         labels.append('flags:chain_depth_%d' % min(m['depth'], 5))
+    return [], labels
+
+
+def check_flagvalue(defs, user, read, engine, forms=None):
+    """T(FlagValue("<read>")) among other flags with hostile values: the value of the
+    flag (user value, else default) must arrive as one literal that decodes to it, with
+    the token shape of the same program reading the plain value "abc".  Asserted when the
+    value holds no reference to a flag that has a value (then nothing is to expand)."""
+    eff = dict(defs)
+    eff.update(user)
+    v = eff[read]
+    text = flag_program(defs, '', engine, forms, read=read)
+    hdr = '--- engine %s, user flags %r, value read %r\n%s' % (engine, user, v, text)
+    labels = ['flags:flagvalue']
+    m = flag_model(defs, user, '', forms)
+    if m['kind'] == 'ambiguous_parameter_scan':
+        return [], labels + ['flags:not_run']
+    kind, val = compile_flags(text, user)
+    labels.append('flags:flagvalue->%s' % kind)
+    if kind == 'rounds':
+        return [('flags:expansion_unbounded',
+                 'more than %d substitution rounds\n%s' % (MAX_ROUNDS, hdr))], labels
+    if kind == 'internal':
+        e = val
+        tb = ''.join(traceback.format_exception(type(e), e, e.__traceback__))[-1500:]
+        return [('flags:internal:%s' % drive.exc_frame(e), tb + '\n' + hdr)], labels
+    if m['kind'] == 'undefined_in_program':
+        if kind != 'diagnostic':
+            return [('flags:undefined_param_accepted',
+                     'parameters %s are used in the program and not defined, but '
+                     'compilation succeeded\n%s' % (m['names'], hdr))], labels
+        return [], labels
+    live = [r for r in REF.findall(v) if r in eff and eff[r] != '${%s}' % r]
+    nested = simulate(v, eff, [n for n, _ in defs]) != v
+    if live or nested:
+        # the value itself uses the ${flag} form: expansion applies (covered by the
+        # T("...") cases); here only that compilation ends
+        return [], labels + ['flags:flagvalue_with_references']
+    if kind == 'diagnostic':
+        return [('flags:flagvalue_rejected:' + common.msg_class(common.first_line(val)),
+                 'a program reading a flag value was rejected: %s\n%s' % (
+                     common.first_line(val), hdr))], labels
+    main = val.execution.main_predicate_sql
+    kind0, val0 = compile_flags(text, dict(user, **{read: CONTROL}))
+    if kind0 != 'sql':
+        return [('flags:control_rejected', 'the same program with the value "abc" for the '
+                 'flag read does not compile: %s %s\n%s' % (kind0, val0, hdr))], labels
+    try:
+        ctl = [(t[0], t[1]) for t in sqlscope.lex(val0.execution.main_predicate_sql, engine)]
+        toks = [(t[0], t[1]) for t in sqlscope.lex(main, engine)]
+    except sqlscope.LexError as e:
+        return [('flags:flagvalue_not_one_literal', 'the statement does not tokenise under '
+                 '%s rules: %s\n--- SQL\n%s\n%s' % (engine, e, main, hdr))], labels
+    want = [((k, v) if k in ('str', 'dq') and x == CONTROL else (k, x)) for k, x in ctl]
+    if toks != want:
+        return [('flags:flagvalue_differs',
+                 'tokens of the statement differ from those for the value "abc" with the '
+                 'literal replaced by the value: literals %r, expected [%r]\n--- SQL\n%s\n%s'
+                 % (sqlscope.strings(sqlscope.lex(main, engine)), v, main, hdr))], labels
+    if engine == 'sqlite':
+        try:
+            h, rows = drive.execute(val)
+        except drive.Interrupted:
+            return [], labels
+        except Exception as e:
+            return [('flags:sqlite_error', '%s: %s\n%s' % (type(e).__name__, e, hdr))], labels
+        if rows != [(v,)]:
+            return [('flags:flagvalue_differs', 'SQLite returned %r, expected [(%r,)]\n%s' % (
+                rows, v, hdr))], labels
+    labels.append('flags:flagvalue_checked')
     return [], labels
 
 
@@ -528,15 +704,16 @@ from lv import drive
 drive.enable_library_cache()
 case = json.loads(sys.argv[2])
 kind, val = c10.compile_flags(c10.flag_program([tuple(d) for d in case['defs']],
-                                               case['use'], case['engine']), case['user'])
+                                               case['use'], case['engine'],
+                                               case.get('forms')), case['user'])
 print('OUTCOME', kind, type(val).__name__)
 '''
 
 
-def exponential_probe(defs, user, use, engine, hdr):
+def exponential_probe(defs, user, use, engine, hdr, forms=None):
     """Runs the compilation in a child with a 400 MB address-space limit (a resource
     count, not a clock)."""
-    case = {'defs': defs, 'user': user, 'use': use, 'engine': engine}
+    case = {'defs': defs, 'user': user, 'use': use, 'engine': engine, 'forms': forms}
     env = dict(os.environ)
     env['PYTHONPATH'] = core.VERIF + os.pathsep + env.get('PYTHONPATH', '')
     p = subprocess.run([sys.executable, '-c', PROBE, core.VERIF, json.dumps(case)],
@@ -570,6 +747,15 @@ def literal_cases(draw):
 
 NAME = st.text(alphabet='abcdefghijklmnopqrstuvwxyz', min_size=1, max_size=4)
 SAFE = st.text(alphabet='abcxyz019_ .', min_size=0, max_size=3)
+# what a flag value can legitimately hold (paths, regular expressions, format strings,
+# quoted text): everything special to re / str.format / % templates, to the ${...} form
+# itself and to the eight literal syntaxes
+HOSTILE = ['\\', '\\\\', '\\n', '\\t', '\\r', '\\d', '\\x', '\\1', '\\0', '\\g<0>',
+           '\\g<1>', '\\g<a>', '\\u00e9', '$', '{', '}', '$$', '$1', '${', '{a}', '$a', '%s',
+           '%d', '%', '%%', '%(a)s', '{0}', '{}', '{{', '}}', "'", "''", '"', '\\\'', '\n',
+           '\t', '#', '--', '/*', '*/', ';', ',', '(', ')', 'é', '漢', 'C:\\new\\table',
+           '^\\d+$', "') --"]
+USE_SAFE = st.text(alphabet='abcxyz019_ .${}%()', min_size=0, max_size=3)
 
 
 @st.composite
@@ -577,22 +763,30 @@ def flag_cases(draw):
     names = draw(st.lists(NAME, min_size=1, max_size=5, unique=True))
     mode = draw(st.sampled_from(['dag', 'dag', 'dag', 'any', 'any', 'undefined', 'ring']))
     extra = draw(NAME.filter(lambda n: n not in names))
+    hostile = draw(st.sampled_from([False, True, True]))
+
+    def plain():
+        if hostile and draw(st.integers(0, 2)) > 0:
+            return ''.join(draw(st.lists(st.one_of(st.sampled_from(HOSTILE),
+                                                   st.sampled_from(HOSTILE), SAFE),
+                                         min_size=1, max_size=3)))
+        return draw(SAFE)
 
     def value(i, pool):
         if pool and draw(st.integers(0, 5)) == 0:
             return '${%s}' % draw(st.sampled_from(pool))      # pure renaming
-        parts = [draw(SAFE)]
+        parts = [plain()]
         for _ in range(draw(st.sampled_from([0, 1, 1, 2]))):
             if pool:
                 parts.append('${%s}' % draw(st.sampled_from(pool)))
-                parts.append(draw(SAFE))
+                parts.append(plain())
         return ''.join(parts)
     defs = []
     for i, n in enumerate(names):
         if mode == 'ring':
             # a -> b -> ... -> a, every value exactly one reference (or nearly)
             nxt = names[(i + 1) % len(names)]
-            defs.append((n, '${%s}' % nxt + (draw(SAFE) if draw(st.integers(0, 4)) == 0
+            defs.append((n, '${%s}' % nxt + (plain() if draw(st.integers(0, 4)) == 0
                                              else '')))
             continue
         if mode == 'dag':
@@ -608,8 +802,13 @@ def flag_cases(draw):
             pool = names[i + 1:] if mode not in ('any', 'ring') else names
             user[n] = value(i, pool)
     use_names = draw(st.lists(st.sampled_from(names), min_size=1, max_size=2))
-    use = draw(SAFE) + ''.join('${%s}%s' % (n, draw(SAFE)) for n in use_names)
-    return ('flag', defs, user, use)
+    sf = USE_SAFE if hostile else SAFE
+    use = draw(sf) + ''.join('${%s}%s' % (n, draw(sf)) for n in use_names)
+    forms = [draw(st.sampled_from(FORMS)) for _ in names] if hostile else None
+    read = None
+    if hostile and draw(st.integers(0, 3)) == 0:
+        read = draw(st.sampled_from(names))     # T(FlagValue("<read>")) instead
+    return ('flag', defs, user, use, forms, read)
 
 
 
@@ -651,24 +850,54 @@ def run_literal(col, s, forms):
                      '[%s] %s' % (r2[0], r2[1]))
 
 
-def run_flags(col, defs, user, use):
-    m = flag_model(defs, user, use)
+def hostile_classes(defs, user):
+    out = set()
+    for v in [v for n, v in defs] + list(user.values()):
+        t = REF.sub('', v)
+        if '\\' in t:
+            out.add('backslash')
+        if "'" in t or '"' in t:
+            out.add('quote')
+        if '$' in t or '{' in t or '}' in t:
+            out.add('dollar_brace')
+        if '%' in t:
+            out.add('percent')
+        if '\n' in t or '\t' in t:
+            out.add('control_char')
+        if any(ord(c) > 127 for c in t):
+            out.add('nonascii')
+    return sorted(out)
+
+
+def run_flags(col, defs, user, use, forms=None, read=None):
+    m = flag_model(defs, user, use, forms)
     nt = any(REF.search(v) for n, v in defs) or any(REF.search(v) for v in user.values())
+    hc = hostile_classes(defs, user)
+    nt = nt or bool(hc)
+    if m['kind'] in ('ambiguous_parameter_scan', 'order_dependent_expansion'):
+        col.exclude('flags_' + m['kind'])
     for engine in ENGINES:
-        key = ('flag', defs, sorted(user.items()), use, engine)
+        key = ('flag', defs, sorted(user.items()), use, forms, read, engine)
         if m['kind'] == 'cycle' and m['exponential'] and EXCLUDE_EXP_CYCLES:
             col.exclude('flag_cycle_with_exponential_growth')
             continue
-        if m['kind'] == 'cycle' and m['exponential'] and engine != 'sqlite':
+        if m['kind'] == 'cycle' and m['exponential'] and engine != 'sqlite' and not read:
             continue        # the child-process probe is expensive: one engine is enough
-        fails, labels = check_flags(defs, user, use, engine, allow_exponential=True)
+        fails, labels = check_flags(defs, user, use, engine, allow_exponential=True,
+                                    forms=forms, read=read)
         if user:
             labels.append('flags:user_override')
-        col.case(key, nt and not fails, labels + ['engine:' + engine],
-                 sample={'defs': defs, 'user': user, 'use': use, 'engine': engine})
+        if engine == 'sqlite':
+            labels += ['flags:value_has_' + c for c in hc]
+            if forms:
+                labels.append('flags:hostile_alphabet')
+        col.case(key, nt and not fails and 'flags:not_run' not in labels,
+                 labels + ['engine:' + engine],
+                 sample={'defs': defs, 'user': user, 'use': use, 'engine': engine,
+                         'forms': forms, 'read': read})
         for b, d in fails:
             col.fail(b, {'kind': 'flag', 'defs': [list(x) for x in defs], 'user': user,
-                         'use': use, 'engine': engine}, d)
+                         'use': use, 'engine': engine, 'forms': forms, 'read': read}, d)
 
 
 def shard(ctx, col):
@@ -682,7 +911,7 @@ def shard(ctx, col):
     n_lit = ctx.budget - n_flag
     core.hyp_run(lambda c: run_literal(col, c[1], c[2]), literal_cases(), n_lit,
                  ctx.hyp_seed)
-    core.hyp_run(lambda c: run_flags(col, c[1], c[2], c[3]), flag_cases(), n_flag,
+    core.hyp_run(lambda c: run_flags(col, c[1], c[2], c[3], c[4], c[5]), flag_cases(), n_flag,
                  ctx.hyp_seed + 500)
 
 
@@ -690,7 +919,8 @@ def check_case(case):
     drive.enable_library_cache()
     if case.get('kind') == 'flag':
         fails, labels = check_flags(case['defs'], case.get('user', {}), case['use'],
-                                    case['engine'], allow_exponential=True)
+                                    case['engine'], allow_exponential=True,
+                                    forms=case.get('forms'), read=case.get('read'))
         return fails
     s, position, form, engine = case['s'], case['position'], case['form'], case['engine']
     f0 = 'sq' if form == 'user' else form
